@@ -100,6 +100,16 @@ func genSession(g *genCtx) {
 				}
 				emit(Case{"pkg": pkg, "reqs": rs, "order": r.Perm(k)})
 			}
+			// several outstanding requests of the SAME type
+			for _, tn := range reqs {
+				fl := flavours(tn)[0]
+				rs := []interface{}{}
+				for j, s := range []uint32{0x11111111, 0x22222222, 0x33333333} {
+					rs = append(rs, rq{"type": tn, "seq": be(uint64(s), 4), "flavour": fl, "w1": be(uint64(j+1), 4), "w2": be(uint64(7*j+3), 4)})
+				}
+				emit(Case{"pkg": pkg, "reqs": rs, "order": []int{0, 1, 2}})
+				emit(Case{"pkg": pkg, "reqs": rs, "order": []int{2, 0, 1}})
+			}
 			// constructors
 			for _, s := range seqs {
 				emit(Case{"pkg": pkg, "ctor": true, "seq": be(uint64(s), 4)})
@@ -222,6 +232,32 @@ func runSession(c Case, tr *Tracer) {
 		order = o
 	}
 	var replies [][]byte
+	// every second case the server generates all responses first and encodes them afterwards
+	// (a response object must stay what it was when later requests are answered)
+	hold := caseInt(c, "t")%2 == 0
+	type pending struct {
+		i    int
+		b    []byte
+		resp sms.PDU
+	}
+	var pend []pending
+	flush := func() {
+		for _, pd := range pend {
+			re := Ev{"ev": "Reply", "type": types[pd.i], "reqbytes": B(pd.b), "rnil": true, "rtype": "", "rgetcmd": []int{}, "rbytes": []int{}, "site": types[pd.i]}
+			if pd.resp != nil && !reflect.ValueOf(pd.resp).IsNil() {
+				rb, err := pd.resp.IEncode()
+				if err == nil {
+					re["rnil"] = false
+					re["rtype"] = typeNameOf(pd.resp)
+					re["rgetcmd"] = pduGetCmd(pd.resp)
+					re["rbytes"] = B(rb)
+					replies = append(replies, rb)
+				}
+			}
+			tr.emit(re)
+		}
+		pend = nil
+	}
 	for _, i := range order {
 		if i >= len(sent) {
 			continue
@@ -243,19 +279,12 @@ func runSession(c Case, tr *Tracer) {
 		}
 		var resp sms.PDU
 		guard(func() { resp = p.GenEmptyResponse() })
-		re := Ev{"ev": "Reply", "type": types[i], "reqbytes": B(b), "rnil": true, "rtype": "", "rgetcmd": []int{}, "rbytes": []int{}, "site": types[i]}
-		if resp != nil && !reflect.ValueOf(resp).IsNil() {
-			rb, err := resp.IEncode()
-			if err == nil {
-				re["rnil"] = false
-				re["rtype"] = typeNameOf(resp)
-				re["rgetcmd"] = pduGetCmd(resp)
-				re["rbytes"] = B(rb)
-				replies = append(replies, rb)
-			}
+		pend = append(pend, pending{i, b, resp})
+		if !hold {
+			flush()
 		}
-		tr.emit(re)
 	}
+	flush()
 	rr.Shuffle(len(replies), func(i, j int) { replies[i], replies[j] = replies[j], replies[i] })
 	for _, rb := range replies {
 		dt, p := dispatchName(pkg, rb)
